@@ -600,6 +600,91 @@ def run_r7(ctx, rule):
     if n < 4:
         rule.bad("numbering/sites", "only %d tagged sites found in transfer (at least 4 counted: cycle test, two map inserts, descents)" % n, kind="anchor-missing")
 
+# ---- R8 -----------------------------------------------------------------------------------------
+def _key_class(e):
+    """('plain', x) | ('flip', x) | ('masked', x) | ('const', c) | ('other', e) for a table key expression"""
+    e = strip_bb(e)
+    if e[0] == "call" and e[2].endswith("Lit::from_code") and len(e[3]) == 1:
+        a = e[3][0]
+        if a[0] == "c":
+            return ("const", a[1])
+        if a[0] == "bin" and a[1] == "BitXor":
+            for x, y in ((a[2], a[3]), (a[3], a[2])):
+                if x == ("c", 1) and y[0] == "call" and y[2].endswith("Lit::code") and len(y[3]) == 1:
+                    return ("flip", y[3][0])
+        if a[0] == "bin" and a[1] == "BitAnd":
+            for x, y in ((a[2], a[3]), (a[3], a[2])):
+                if x == ("un", "Not", ("c", 1)) and y[0] == "call" and y[2].endswith("Lit::code") and len(y[3]) == 1:
+                    return ("masked", y[3][0])
+        if a[0] == "call" and a[2].endswith("Lit::code") and len(a[3]) == 1:
+            return ("plain", a[3][0])
+        return ("other", e)
+    if e[0] in ("l", "f"):
+        return ("plain", e)
+    return ("other", e)
+
+
+def run_r8(ctx, rule):
+    """The definition table (`HashMap<L, LitDef>`) is keyed by output literals *as written* -- either polarity.
+    Whoever asks it whether a variable is defined must ask for both polarities of the literal; a key normalised
+    to one polarity misses a definition recorded under the other (and the redefinition error with it).  Decided
+    per function from the key expressions: inserts say how the table is keyed, every query must agree."""
+    facts = ctx.facts
+    sites = []
+    for f in facts.fns.values():
+        if f.crate != "flussab_aiger" or not norm(f.id).startswith(AIG):
+            continue
+        sy = sym(f)
+        for bb, t in f.calls():
+            cn = norm(util.cname(t))
+            m = cn.rsplit("::", 1)[-1]
+            if "HashMap" not in cn or m not in ("insert", "contains_key", "get", "get_mut", "remove", "entry") or len(t["args"]) < 2:
+                continue
+            p0 = t["args"][0].get("mv") or t["args"][0].get("cp")
+            ty = f.locals[p0["l"]].get("s", "") if p0 else ""
+            if "LitDef" not in ty:
+                continue
+            sites.append((f, bb, m, _key_class(sy.operand(t["args"][1])), sy))
+    ins = [x for x in sites if x[2] == "insert"]
+    if len(ins) < 3 or len(sites) < 6:
+        rule.bad("defs/sites", "only %d inserts / %d uses of the definition table found (3 / 6 counted)" % (len(ins), len(sites)), kind="anchor-missing")
+        return
+    keyed = set(k[0] for _, _, _, k, _ in ins if k[0] != "const")
+    as_written = "plain" in keyed
+    rule.check(keyed <= {"plain"} or keyed <= {"masked"}, "defs/insert-keys", "the definition table is keyed uniformly (%s)" % ("by literals as written" if keyed == {"plain"} else sorted(keyed)), ins[0][0].loc(ins[0][1]))
+    per_fn = {}
+    for f, bb, m, k, sy in sites:
+        per_fn.setdefault(f.id, []).append((f, bb, m, k, sy))
+    for fid, ss in sorted(per_fn.items()):
+        f = ss[0][0]
+        sy = ss[0][4]
+        nid = norm(fid)
+        # arrays `[x, from_code(1 ^ x.code())]` whose elements are looked up one after the other
+        both_arrays = False
+        for b in f.blocks:
+            for st in b["stmts"]:
+                if st["k"] == "assign" and st["rv"]["k"] == "agg" and st["rv"].get("ak") == "array" and len(st["rv"]["ops"]) == 2:
+                    ks = [_key_class(sy.operand(o)) for o in st["rv"]["ops"]]
+                    if sorted(k[0] for k in ks) == ["flip", "plain"] and strip_bb(ks[0][1]) == strip_bb(ks[1][1]):
+                        both_arrays = True
+        plain = [strip_bb(k[1]) for _, _, m, k, _ in ss if k[0] == "plain"]
+        flip = [strip_bb(k[1]) for _, _, m, k, _ in ss if k[0] == "flip"]
+        for f, bb, m, k, _ in ss:
+            key = "%s/%s/%s" % (nid, m, sy.show(k[1]).replace(" ", "") if k[0] != "const" else "const")
+            if k[0] == "const":
+                rule.ok("constant key", f.loc(bb))
+                continue
+            if not as_written:
+                rule.check(k[0] == "masked", key + "/normalised", "the table is keyed by normalised literals and %s asks with a normalised key" % short(nid), f.loc(bb))
+                continue
+            if k[0] in ("masked", "other"):
+                rule.bad(key + "/key-domain", "%s asks the definition table, which is keyed by literals as written, with the %s key %s: a definition recorded under the other polarity is not found" % (short(nid), "normalised" if k[0] == "masked" else "computed", sy.show(k[1])), f.loc(bb))
+                continue
+            x = strip_bb(k[1])
+            other = flip if k[0] == "plain" else plain
+            ok = x in other or (k[0] == "plain" and x[0] == "l" and both_arrays)
+            rule.check(ok, key + "/both-polarities", "%s asks for %s under both polarities" % (short(nid), sy.show(k[1])), f.loc(bb))
+
 
 def run(ctx):
     r1 = ctx.rule("C12-R1", "the renumbering code is not recursive (explicit stack)", floor=2)
@@ -612,6 +697,8 @@ def run(ctx):
     run_r4(ctx, r4)
     r5 = ctx.rule("C12-R5", "polarity discipline of LitMap and transfer", floor=8)
     run_r5(ctx, r5)
+    r8 = ctx.rule("C12-R8", "the definition table is keyed by literals as written and every question to it covers both polarities", floor=7)
+    run_r8(ctx, r8)
     r7 = ctx.rule("C12-R7", "source-circuit literals and renumbered literals are never compared, and each is used where its numbering is meant", floor=4)
     run_r7(ctx, r7)
     r6 = ctx.rule("C12-R6", "every constant fold is an identity of AND (each decision path checked over the six representative codes)", floor=5)
